@@ -521,6 +521,12 @@ fn interpolate(lit: &str, expressions: &[Core]) -> String {
             string.push(c);
         } else if in_expr && build_cur_expr > 0 {
             cur_expr.push(c);
+        } else if in_expr && build_cur_expr == 0 {
+            // brackets with nothing in between are no expression but brackets: doubled for Python
+            string.push('{');
+            string.push_str(&cur_expr);
+            cur_expr.clear();
+            string.push_str("}}");
         } else if back_slash && !in_expr && (c == '{' || c == '}') {
             // an escaped bracket is a bracket: Python spells that by doubling it
             string.pop();
